@@ -521,6 +521,7 @@ type interp struct {
 	errNote     string
 	nonJumpErrs int  // errors that do not come from a failing jump
 	sawRandom   bool // a random built-in was evaluated successfully: its value is not modelled
+	sawBoom     bool // a host function that panics was called
 	jumpTo      *Node
 	leftNodes   map[string]bool // nodes left through a jump at least once
 	// statistics for classification
@@ -582,6 +583,10 @@ func (m *interp) callFn(name string, args []mval) (mval, bool, error) {
 	case "noret":
 		m.fnLog = append(m.fnLog, "noret()")
 		return mval{}, false, nil
+	case "boom":
+		// a host function that panics: the panic is the host's own and travels up through Next
+		m.sawBoom = true
+		return mval{}, false, evalErrf("the host function panics")
 	case "dice", "random_range", "random":
 		if err := randomDomainError(name, args); err != nil {
 			return mval{}, false, err
